@@ -161,7 +161,7 @@ macro_rules! scaling {
 }
 scaling!(timedelta_scaling_k2, 2);
 scaling!(timedelta_scaling_km1, -1);
-scaling!(timedelta_scaling_k3, 3);
+scaling!(timedelta_xscaling_k3, 3);
 
 #[kani::proof]
 fn timedelta_scaling_unit_zero() {
